@@ -23,6 +23,11 @@
 (* A halt is ordered by the administrator or by anyone who presents a      *)
 (* signature of the threshold key over the current nonce (used once).      *)
 (*                                                                         *)
+(* Two outcomes are the code's as found and not demanded by the property:   *)
+(* "kept-unburned" (a wrap on a stubborn pair) and "consumed-unpaid" (a     *)
+(* redeem whose mint is refused).  The replay ends a behaviour at the first *)
+(* of them and accepts a refusal that leaves everything unchanged as well.  *)
+(*                                                                         *)
 (* Time is abstract: one unit = a fixed number of momentums in the replay; *)
 (* the redeem delay is two units, the cool-down after an unhalt one.       *)
 (***************************************************************************)
